@@ -3,7 +3,9 @@ Require Import Parser Api.
 Require Lex.
 Require Import ParserErrTok.
 Require LexProof LexFuel LexPeek.
-From Coq Require Import List String.
+Require LexBackup LexBackup2.
+From Coq Require Import List String NArith.
+Import ListNotations.
 
 (* for EVERY rune classification: each proper token's text, preceded only by skipped whitespace (space, tab, CR, LF), is the
    next piece of the input, and the rest is strictly shorter *)
@@ -38,9 +40,35 @@ Theorem C16_eof_forever : forall (cl : Lex.classes) (st : Lex.lstate), LexPeek.e
   forall k, fst (Lex.lnext cl (LexPeek.reads cl k (snd (Lex.lnext cl st)))) = Lex.eof_tok.
 Proof. exact LexPeek.eof_forever. Qed.
 
+
+(* lex.go reads ahead with peek() = next(); backup(), and backup() steps back by the width utf8.DecodeLastRuneInString reports for
+   the consumed prefix; the model simply does not consume. Proofs/LexBackup.v models DecodeLastRuneInString as the Go source has it
+   (the last byte if ASCII; otherwise scan back at most three bytes for a byte that is no continuation byte, decode forward from
+   there, accept only a rune that ends exactly at the end) and Proofs/LexBackup2.v shows, for EVERY input - valid UTF-8 or not - and
+   every position the forward decoder reaches from the start (aligned: position 0, and from a reached position the one after the next
+   step), that it reports exactly the width the forward step consumed: the position after next(); backup() is the position before.
+   For a step that consumed an ASCII byte or a valid sequence the rune is the same too, whatever precedes (no alignment needed). *)
+Theorem C16_backup_undoes_next : forall (a x r : Lex.bytes) (rn : N),
+  LexBackup2.aligned (a ++ x ++ r) (List.length a) = true -> Lex.decode_rune (x ++ r) = Some (rn, List.length x) ->
+  snd (LexBackup.decode_last (a ++ x)) = List.length x /\ List.length (a ++ x) - snd (LexBackup.decode_last (a ++ x)) = List.length a.
+Proof. exact LexBackup2.backup_undoes_next_everywhere. Qed.
+
+Theorem C16_lexer_positions_are_aligned : forall (s : Lex.bytes),
+  LexBackup2.aligned s 0 = true /\
+  forall (p : nat) (rn : N) (w : nat), LexBackup2.aligned s p = true -> Lex.decode_rune (skipn p s) = Some (rn, w) -> LexBackup2.aligned s (p + w) = true.
+Proof. intros s. split; [exact (LexBackup2.aligned_0 s)|exact (LexBackup2.aligned_step s)]. Qed.
+
+Theorem C16_backup_returns_the_rune_of_a_valid_step : forall (a x r : Lex.bytes) (rn : N) (w : nat),
+  Lex.decode_rune (x ++ r) = Some (rn, w) -> List.length x = w ->
+  (2 <= w \/ match x with [c] => (Lex.bval c <? 128)%N = true | _ => False end) -> LexBackup.decode_last (a ++ x) = (rn, w).
+Proof. exact LexBackup.decode_last_undoes_decode. Qed.
+
 Print Assumptions C16_next_token_lossless.
 Print Assumptions C16_peek_is_next.
 Print Assumptions C16_eof_forever.
 Print Assumptions C16_stream_is_a_segmentation.
 Print Assumptions C16_finitely_many_tokens.
 Print Assumptions C16_lexical_error_rejects.
+Print Assumptions C16_backup_undoes_next.
+Print Assumptions C16_lexer_positions_are_aligned.
+Print Assumptions C16_backup_returns_the_rune_of_a_valid_step.
